@@ -38,6 +38,8 @@ def parseBrk (j : Nat) (lines : List String) : List BLabel × Bool × List Strin
        | some a => ((ls ++ [.term a], mine), q, bad)
        | none => ((ls, mine), q, bad ++ [line]))
     | "quiescent" :: _ => ((ls, mine), true, bad)
+    -- `Broker::try_publish` disagreed with the registry query made right before it: not a run of anything
+    | "try_publish_mismatch" :: _ => ((ls, mine), q, bad ++ [line])
     | _ => acc) (([], []), false, [])
   (r.1.1, r.2.1, r.2.2)
 
